@@ -23,6 +23,40 @@ package file
 
 //@ abstract filepath.Join (elem) -> (r)
 //@ pure
+//@ ensures def (=> (= (sl.len elem) 2) (= r (pathJoin (Arr.Bytes.at H (sl.arr elem) (sl.off elem)) (Arr.Bytes.at H (sl.arr elem) (+ (sl.off elem) 1)))))
+
+//@ theory cateps
+//@ smt (assert (forall ((a Bytes)) (! (= (cat eps a) a) :pattern ((cat eps a)))))
+//@ endtheory
+
+// temporary files: CreateTemp returns a new file under a name that is not a node path
+//@ smt (declare-fun isTemp (Bytes) Bool)
+//@ smt (declare-fun fileName (Int) Bytes)
+//@ abstract os.CreateTemp (dir pattern) -> (f err)
+//@ modifies W G.fsHas G.fsData
+//@ ensures ok (=> (= err anil) (and (> f 0) (isTemp (fileName f)) (not (has H0 (fileName f))) (has H (fileName f)) (= (data H (fileName f)) eps) (OthersSame H0 H (fileName f))))
+//@ ensures fail (=> (isErr err) (and (= f 0) (= H H0)))
+
+//@ abstract (*os.File).Name (f) -> (r)
+//@ pure
+//@ ensures def (= r (fileName f))
+
+//@ abstract (*os.File).Write (f b) -> (n err)
+//@ modifies G.fsData
+//@ ensures ok (=> (= err anil) (= (data H (fileName f)) (cat (data H0 (fileName f)) (bs.val b))))
+//@ ensures frame (forall ((q Bytes)) (! (=> (not (= q (fileName f))) (= (data H q) (data H0 q))) :pattern ((data H q))))
+
+//@ abstract (*os.File).Close (f) -> (err)
+//@ pure
+
+//@ abstract os.Rename (oldpath newpath) -> (err)
+//@ modifies G.fsHas G.fsData
+//@ ensures ok (=> (= err anil) (and (has H newpath) (= (data H newpath) (data H0 oldpath)) (forall ((q Bytes)) (! (=> (and (not (= q newpath)) (not (= q oldpath))) (and (= (has H q) (has H0 q)) (= (data H q) (data H0 q)))) :pattern ((has H q)) :pattern ((data H q))))))
+//@ ensures fail (=> (isErr err) (= H H0))
+
+//@ abstract os.Remove (name) -> (err)
+//@ modifies G.fsHas
+//@ ensures frame (forall ((q Bytes)) (! (=> (not (= q name)) (= (has H q) (has H0 q))) :pattern ((has H q))))
 
 //@ abstract os.ReadFile (name) -> (b err)
 //@ pure
@@ -47,17 +81,19 @@ package file
 
 //@ func (Persist).Load
 //@ tags C17 C18
-//@ modifies W
+//@ modifies W Arr.Bytes@fresh
 //@ ensures ok [C18] (=> (= err anil) (and (has H0 (pathJoin (S_Persist.basepath p) name)) (= (bs.val result0) (data H0 (pathJoin (S_Persist.basepath p) name)))))
 //@ ensures missing [C18] (=> (not (has H0 (pathJoin (S_Persist.basepath p) name))) (isErr err))
 
 //@ func (Persist).Store
 //@ tags C17 C18
-//@ modifies W G.fsHas G.fsData
+//@ uses cateps
+//@ modifies W G.fsHas G.fsData Arr.Bytes@fresh
+//@ requires nodename [C17] (not (isTemp (pathJoin (S_Persist.basepath p) name)))
 //@ requires addressed [C17] (NoPartial H (pathJoin (S_Persist.basepath p) name) (bs.val bytes))
 //@ ensures written [C17 C18] (=> (= err anil) (and (has H (pathJoin (S_Persist.basepath p) name)) (= (data H (pathJoin (S_Persist.basepath p) name)) (bs.val bytes))))
 //@ ensures nopartial [C17] (NoPartial H (pathJoin (S_Persist.basepath p) name) (bs.val bytes))
-//@ ensures others [C18] (OthersSame H0 H (pathJoin (S_Persist.basepath p) name))
+//@ ensures others [C18] (forall ((q Bytes)) (! (=> (and (not (= q (pathJoin (S_Persist.basepath p) name))) (not (isTemp q))) (and (= (has H q) (has H0 q)) (= (data H q) (data H0 q)))) :pattern ((has H q)) :pattern ((data H q))))
 //@ after-each-call nopartial [C17] (NoPartial H (pathJoin (S_Persist.basepath p) name) (bs.val bytes))
 
 //@ func (Persist).NodeURLPrefix
